@@ -28,7 +28,9 @@ def main():
             payload = json.load(open(a.replay))
             if isinstance(payload, dict):
                 payload.setdefault("_path", a.replay)
-            return mod.replay(chk, payload)
+            chk.replay_payload = payload
+            # a module with a replay of its own uses it; the others run their check on the recorded input only
+            return mod.replay(chk, payload) if hasattr(mod, "replay") else mod.run(chk)
         return mod.run(chk)
     except core.HarnessFault as e:
         print(f"HARNESS-FAULT {a.prop}: {e}", file=sys.stderr)
